@@ -508,8 +508,42 @@ class C15B(EngineBase):
                 core.sr.set_default_tensordot_mode(cfg["inner_set"])
             return "done"
 
+        def probe(tag):
+            """mode=None must mean the default that is current *now*: before,
+            between and after the blocks, not only inside the innermost one."""
+            for s in body:
+                if s["op"] == "tensordot" and s["a"].get("mode", 0) is None:
+                    cur = get()
+                    s2 = copy.deepcopy(s)
+                    s2["a"]["mode"] = cur
+                    try:
+                        r1 = ops.run_step(s, dict(heap))
+                    except (core.SimCrash, HarnessError):
+                        raise
+                    except Exception as e1:  # noqa: BLE001
+                        r1 = ("raised", type(e1).__name__)
+                    try:
+                        r2 = ops.run_step(s2, dict(heap))
+                    except (core.SimCrash, HarnessError):
+                        raise
+                    except Exception as e2:  # noqa: BLE001
+                        r2 = ("raised", type(e2).__name__)
+                    if isinstance(r1, tuple) and r1[:1] == ("raised",) or isinstance(r2, tuple) and r2[:1] == ("raised",):
+                        if r1 != r2:
+                            checks.append(("mode-none-equals-explicit",
+                                           f"{tag}: mode=None gives {r1 if isinstance(r1, tuple) else 'ok'}, "
+                                           f"mode={cur!r} gives {r2 if isinstance(r2, tuple) else 'ok'}"))
+                        return
+                    why = S.snap_close(S.snap(r1), S.snap(r2))
+                    if why:
+                        checks.append(("mode-none-equals-explicit",
+                                       f"{tag}: mode=None under default {cur!r} differs from explicit: {why}"))
+                    st.stats["oracle.mode_none_probes"] += 1
+                    return
+
         def nested(level):
             before = get()
+            probe(f"before level {level}")
             try:
                 if cfg["exit"] == "generator_close" and level == len(modes) - 1:
                     # the block is entered inside a generator that is suspended
@@ -616,7 +650,10 @@ class C15B(EngineBase):
             core.sr.set_default_tensordot_mode(None)
             if get() != cfg["outer"]:
                 checks.append(("set-none-is-noop", f"{get()} after set(None), was {cfg['outer']}"))
-        nested(0)
+        try:
+            nested(0)
+        finally:
+            probe("after the outermost block")
 
     def _one(self, st, crash_n):
         core.world_reset()
